@@ -1,7 +1,7 @@
 """C10 - sync is idempotent, never edits the truth, and reports changes truthfully."""
 from vf.props import C09, deductive, sync_common as S
 
-KEYS = ["doctrans.conformance:_conform_filename", "doctrans.emit:file", "doctrans.conformance:ground_truth"]
+KEYS = ["doctrans.conformance:_conform_filename", "doctrans.ast_utils:find_in_ast", "doctrans.ast_utils:annotate_ancestry", "doctrans.emit:file", "doctrans.conformance:ground_truth"]
 
 
 def check(run, record_expected=False):
